@@ -9,11 +9,11 @@ from props import c06
 def run(ctx):
     if ctx.quick:
         run_fanout(ctx, bfs=[("A", 4, 2), ("C", 6, 1)], emit=[("A", 3, 2)],
-                   sim=[("C", 10, 2, 250, 16), ("D", 10, 3, 200, 18), ("A", 9, 3, 150, 16), ("Ah", 9, 3, 80, 16)])
+                   sim=[("C", 10, 2, 250, 16), ("D", 10, 3, 200, 18), ("A", 9, 3, 150, 16), ("Ah", 9, 3, 80, 16), ("En", 9, 3, 80, 16)])
         run_republish(ctx)
         c06.run(ctx, c02=True)
     else:
         run_fanout(ctx, bfs=[("A", 5, 2), ("C", 7, 1), ("D", 4, 1)], emit=[("A", 3, 2), ("C", 5, 1)],
-                   sim=[("C", 12, 3, 2000, 24), ("D", 12, 3, 2500, 26), ("A", 12, 3, 1500, 24), ("Ah", 12, 3, 800, 24)])
+                   sim=[("C", 12, 3, 2000, 24), ("D", 12, 3, 2500, 26), ("A", 12, 3, 1500, 24), ("Ah", 12, 3, 800, 24), ("En", 12, 3, 800, 24)])
         run_republish(ctx)
         c06.run(ctx, c02=True)
